@@ -213,4 +213,155 @@ theorem parse_encode : ∀ (os : List DHCPOption) (p : Bytes) (fuel : Nat), wfOp
         split at hf <;> omega)]
 
 
+/-! ## 5. decode ∘ encode: the header -/
+
+/-- The twelve chunks of the header, read back from `chunks ++ R` at their fixed offsets. -/
+theorem hdr_slices (A0 A1 A2 A3 A4 A5 A6 A7 A8 A9 A10 A11 R : Bytes)
+    (h0 : A0.length = 4) (h1 : A1.length = 4) (h2 : A2.length = 2) (h3 : A3.length = 2) (h4 : A4.length = 4)
+    (h5 : A5.length = 4) (h6 : A6.length = 4) (h7 : A7.length = 4) (h8 : A8.length = 16) (h9 : A9.length = 64)
+    (h10 : A10.length = 128) (h11 : A11.length = 4) (n : Nat) (hn : n ≤ 16) :
+    let v := A0 ++ A1 ++ A2 ++ A3 ++ A4 ++ A5 ++ A6 ++ A7 ++ A8 ++ A9 ++ A10 ++ A11 ++ R
+    v.length = 240 + R.length ∧
+    (v.drop 0).take 4 = A0 ∧ (v.drop 4).take 4 = A1 ∧ (v.drop 8).take 2 = A2 ∧ (v.drop 10).take 2 = A3 ∧
+    (v.drop 12).take 4 = A4 ∧ (v.drop 16).take 4 = A5 ∧ (v.drop 20).take 4 = A6 ∧ (v.drop 24).take 4 = A7 ∧
+    (v.drop 28).take n = A8.take n ∧ (v.drop 44).take 64 = A9 ∧ (v.drop 108).take 128 = A10 ∧
+    (v.drop 236).take 4 = A11 ∧ v.drop 240 = R := by
+  intro v
+  refine ⟨?_, ?_, ?_, ?_, ?_, ?_, ?_, ?_, ?_, ?_, ?_, ?_, ?_, ?_⟩
+  · simp only [v, List.length_append, h0, h1, h2, h3, h4, h5, h6, h7, h8, h9, h10, h11]
+  · have : v = [] ++ (A0 ++ (A1 ++ A2 ++ A3 ++ A4 ++ A5 ++ A6 ++ A7 ++ A8 ++ A9 ++ A10 ++ A11 ++ R)) := by
+      simp only [v, List.append_assoc, List.nil_append]
+    rw [this]; exact slice_mid _ _ _ 0 4 rfl h0
+  · have : v = A0 ++ (A1 ++ (A2 ++ A3 ++ A4 ++ A5 ++ A6 ++ A7 ++ A8 ++ A9 ++ A10 ++ A11 ++ R)) := by
+      simp only [v, List.append_assoc]
+    rw [this]; exact slice_mid _ _ _ 4 4 h0 h1
+  · have : v = (A0 ++ A1) ++ (A2 ++ (A3 ++ A4 ++ A5 ++ A6 ++ A7 ++ A8 ++ A9 ++ A10 ++ A11 ++ R)) := by
+      simp only [v, List.append_assoc]
+    rw [this]; exact slice_mid _ _ _ 8 2 (by simp only [List.length_append, h0, h1]) h2
+  · have : v = (A0 ++ A1 ++ A2) ++ (A3 ++ (A4 ++ A5 ++ A6 ++ A7 ++ A8 ++ A9 ++ A10 ++ A11 ++ R)) := by
+      simp only [v, List.append_assoc]
+    rw [this]; exact slice_mid _ _ _ 10 2 (by simp only [List.length_append, h0, h1, h2]) h3
+  · have : v = (A0 ++ A1 ++ A2 ++ A3) ++ (A4 ++ (A5 ++ A6 ++ A7 ++ A8 ++ A9 ++ A10 ++ A11 ++ R)) := by
+      simp only [v, List.append_assoc]
+    rw [this]; exact slice_mid _ _ _ 12 4 (by simp only [List.length_append, h0, h1, h2, h3]) h4
+  · have : v = (A0 ++ A1 ++ A2 ++ A3 ++ A4) ++ (A5 ++ (A6 ++ A7 ++ A8 ++ A9 ++ A10 ++ A11 ++ R)) := by
+      simp only [v, List.append_assoc]
+    rw [this]; exact slice_mid _ _ _ 16 4 (by simp only [List.length_append, h0, h1, h2, h3, h4]) h5
+  · have : v = (A0 ++ A1 ++ A2 ++ A3 ++ A4 ++ A5) ++ (A6 ++ (A7 ++ A8 ++ A9 ++ A10 ++ A11 ++ R)) := by
+      simp only [v, List.append_assoc]
+    rw [this]; exact slice_mid _ _ _ 20 4 (by simp only [List.length_append, h0, h1, h2, h3, h4, h5]) h6
+  · have : v = (A0 ++ A1 ++ A2 ++ A3 ++ A4 ++ A5 ++ A6) ++ (A7 ++ (A8 ++ A9 ++ A10 ++ A11 ++ R)) := by
+      simp only [v, List.append_assoc]
+    rw [this]; exact slice_mid _ _ _ 24 4 (by simp only [List.length_append, h0, h1, h2, h3, h4, h5, h6]) h7
+  · have : v = (A0 ++ A1 ++ A2 ++ A3 ++ A4 ++ A5 ++ A6 ++ A7) ++ (A8.take n ++ (A8.drop n ++ A9 ++ A10 ++ A11 ++ R)) := by
+      have e8 : A8 = A8.take n ++ A8.drop n := (List.take_append_drop n A8).symm
+      simp only [v, List.append_assoc]
+      rw [← List.append_assoc (List.take n A8), ← e8]
+    rw [this]; exact slice_mid _ _ _ 28 n (by simp only [List.length_append, h0, h1, h2, h3, h4, h5, h6, h7])
+      (by rw [List.length_take]; omega)
+  · have : v = (A0 ++ A1 ++ A2 ++ A3 ++ A4 ++ A5 ++ A6 ++ A7 ++ A8) ++ (A9 ++ (A10 ++ A11 ++ R)) := by
+      simp only [v, List.append_assoc]
+    rw [this]; exact slice_mid _ _ _ 44 64 (by simp only [List.length_append, h0, h1, h2, h3, h4, h5, h6, h7, h8]) h9
+  · have : v = (A0 ++ A1 ++ A2 ++ A3 ++ A4 ++ A5 ++ A6 ++ A7 ++ A8 ++ A9) ++ (A10 ++ (A11 ++ R)) := by
+      simp only [v, List.append_assoc]
+    rw [this]; exact slice_mid _ _ _ 108 128 (by simp only [List.length_append, h0, h1, h2, h3, h4, h5, h6, h7, h8, h9]) h10
+  · have : v = (A0 ++ A1 ++ A2 ++ A3 ++ A4 ++ A5 ++ A6 ++ A7 ++ A8 ++ A9 ++ A10) ++ (A11 ++ R) := by
+      simp only [v, List.append_assoc]
+    rw [this]; exact slice_mid _ _ _ 236 4 (by simp only [List.length_append, h0, h1, h2, h3, h4, h5, h6, h7, h8, h9, h10]) h11
+  · have : v = (A0 ++ A1 ++ A2 ++ A3 ++ A4 ++ A5 ++ A6 ++ A7 ++ A8 ++ A9 ++ A10 ++ A11) ++ R := rfl
+    rw [this]
+    exact List.drop_left' (by simp only [List.length_append, h0, h1, h2, h3, h4, h5, h6, h7, h8, h9, h10, h11])
+
+
+theorem dhcpMagic_lt : dhcpMagic < 4294967296 := by decide
+
+set_option maxRecDepth 8000 in
+/-- Decoding the bytes SerializeTo produces for a well-formed layer whose HardwareLen agrees with its
+    ClientHWAddr (followed by anything, `p`) gives the layer back — whatever the receiver held:
+    every public field, Options in order; Contents = all the bytes, Payload empty, no error, no
+    truncation flag. -/
+theorem decSpec_encode (old l : DHCPv4) (p : Bytes) (hw : wfDhcp l) (ha : hwLenAgrees l) :
+    decSpec old (dhcpEncode l ++ p) =
+      { layer := { l with contents := dhcpEncode l ++ p, payload := [] }, trunc := false, err := false } := by
+  obtain ⟨w1, w2, w3, w4, w5, w6, w7, w8, w9, w10, w11, w12, w13, w14, w15⟩ := hw
+  unfold hwLenAgrees at ha
+  have hv : dhcpEncode l ++ p =
+      [u8 l.operation, u8 l.hardwareType, u8 l.hardwareLen, u8 l.relayHops] ++ putBe32 l.xid ++ putBe16 l.secs ++
+      putBe16 l.flags ++ l.clientIP ++ l.yourClientIP ++ l.nextServerIP ++ l.relayAgentIP ++ padTo 16 l.clientHWAddr ++
+      l.serverName ++ l.file ++ putBe32 dhcpMagic ++ (optsBytes l.options ++ ([u8 dhcpOptEnd] ++ p)) := by
+    unfold dhcpEncode hdrBytes
+    rw [to4_four _ w8, to4_four _ w9, to4_four _ w10, to4_four _ w11, padTo_length_eq 4 _ w8, padTo_length_eq 4 _ w9,
+      padTo_length_eq 4 _ w10, padTo_length_eq 4 _ w11, padTo_length_eq 64 _ w13, padTo_length_eq 128 _ w14]
+    simp only [List.append_assoc]
+  generalize hV : dhcpEncode l ++ p = v at hv ⊢
+  obtain ⟨s0, s1, s2, s3, s4, s5, s6, s7, s8, s9, s10, s11, s12, s13⟩ :=
+    hdr_slices [u8 l.operation, u8 l.hardwareType, u8 l.hardwareLen, u8 l.relayHops] (putBe32 l.xid) (putBe16 l.secs)
+      (putBe16 l.flags) l.clientIP l.yourClientIP l.nextServerIP l.relayAgentIP (padTo 16 l.clientHWAddr)
+      l.serverName l.file (putBe32 dhcpMagic) (optsBytes l.options ++ ([u8 dhcpOptEnd] ++ p))
+      rfl rfl rfl rfl w8 w9 w10 w11 (padTo_length 16 _) w13 w14 rfl l.clientHWAddr.length w12
+  rw [← hv] at s0 s1 s2 s3 s4 s5 s6 s7 s8 s9 s10 s11 s12 s13
+  have hlen : 240 ≤ v.length := by omega
+  rw [four_bytes v 0 (by omega)] at s1
+  injection s1 with b0 s1; injection s1 with b1 s1; injection s1 with b2 s1; injection s1 with b3 _
+  simp only [Nat.zero_add] at b1 b2 b3
+  have hhw : hwLenOf v = l.hardwareLen := by unfold hwLenOf; rw [b2, u8_toNat_lt _ w3]
+  have hxid := u32At_of_slice v 4 l.xid (by omega) w5 s2
+  have hsecs := u16At_of_slice v 8 l.secs (by omega) w6 s3
+  have hflags := u16At_of_slice v 10 l.flags (by omega) w7 s4
+  have hmagic := u32At_of_slice v 236 dhcpMagic (by omega) dhcpMagic_lt s12
+  have hparse := parse_encode l.options p (v.length - 240) w15 (by rw [← s13, List.length_drop]; exact Nat.le_refl _)
+  rw [← s13] at hparse
+  unfold decSpec
+  rw [if_neg (by omega), if_neg (by rw [hhw, ha]; omega), if_neg (by rw [hmagic]; simp)]
+  simp only [hparse]
+  congr 1
+  unfold hdrFixed hdrAll hdr3
+  simp only [hhw, b0, b1, b3, u8_toNat_lt _ w1, u8_toNat_lt _ w2, u8_toNat_lt _ w4, hxid, hsecs, hflags, s5, s6, s7, s8,
+    s10, s11]
+  rw [ha, s9, padTo_take 16 _ w12]
+
+
+/-! ## 6. Around the round trip -/
+
+theorem wfOpts_consistent : ∀ os : List DHCPOption, wfOpts os → optsConsistent os := by
+  intro os
+  induction os with
+  | nil => intro _; trivial
+  | cons o rest ih => intro h; exact ⟨h.1.2.2.2.2, ih h.2⟩
+
+theorem wfDhcp_fixed (l : DHCPv4) (fix : Bool) (h : wfDhcp l) : wfDhcp (dhcpFixed l fix) := by
+  unfold dhcpFixed
+  cases fix
+  · exact h
+  · obtain ⟨w1, w2, w3, w4, w5, w6, w7, w8, w9, w10, w11, w12, w13, w14, w15⟩ := h
+    exact ⟨w1, w2, Nat.mod_lt _ (by decide), w4, w5, w6, w7, w8, w9, w10, w11, w12, w13, w14, w15⟩
+
+theorem hwLenAgrees_fixed (l : DHCPv4) (h : l.clientHWAddr.length ≤ 16) : hwLenAgrees (dhcpFixed l true) := by
+  unfold hwLenAgrees dhcpFixed
+  simp only [if_true]
+  exact Nat.mod_eq_of_lt (by omega)
+
+theorem dhcpFixed_of_agrees (l : DHCPv4) (fix : Bool) (h : hwLenAgrees l) (h16 : l.clientHWAddr.length ≤ 16) :
+    dhcpFixed l fix = l := by
+  unfold dhcpFixed hwLenAgrees at *
+  cases fix
+  · rfl
+  · simp only [if_true]
+    rw [Nat.mod_eq_of_lt (by omega), ← h]
+
+/-- The bytes depend on the public fields only (not on Contents/Payload). -/
+theorem dhcpEncode_congr (a b : DHCPv4) (h : DhcpEquiv a b) : dhcpEncode a = dhcpEncode b := by
+  obtain ⟨e1, e2, e3, e4, e5, e6, e7, e8, e9, e10, e11, e12, e13, e14, e15⟩ := h
+  unfold dhcpEncode hdrBytes
+  rw [e1, e2, e3, e4, e5, e6, e7, e8, e9, e10, e11, e12, e13, e14, e15]
+
+theorem serBad_congr (a b : DHCPv4) (h : a.options = b.options) : serBad a = serBad b := by
+  unfold serBad; rw [h]
+
+theorem DhcpEquiv_refl (a : DHCPv4) : DhcpEquiv a a :=
+  ⟨rfl, rfl, rfl, rfl, rfl, rfl, rfl, rfl, rfl, rfl, rfl, rfl, rfl, rfl, rfl⟩
+
+theorem DhcpEquiv_base (l : DHCPv4) (c p : Bytes) : DhcpEquiv { l with contents := c, payload := p } l :=
+  ⟨rfl, rfl, rfl, rfl, rfl, rfl, rfl, rfl, rfl, rfl, rfl, rfl, rfl, rfl, rfl⟩
+
 end Gp.Dhcp
